@@ -1,7 +1,5 @@
 package geom
 
-import "math"
-
 // Withiner is an interface for types that can be determined to be
 // within a polygon or not.
 type Withiner interface {
@@ -83,10 +81,8 @@ func rayIntersectsSegment(p, a, b Point) bool {
 	if a.Y > b.Y {
 		a, b = b, a
 	}
-	for p.Y == a.Y || p.Y == b.Y {
-		p.Y = math.Nextafter(p.Y, math.Inf(1))
-	}
-	if p.Y < a.Y || p.Y > b.Y {
+	// Half-open rule: a segment counts for heights in [a.Y, b.Y).
+	if p.Y < a.Y || p.Y >= b.Y {
 		return false
 	}
 	if a.X > b.X {
